@@ -1,5 +1,12 @@
 import SuppModel.Props.C04
+import SuppModel.Witness.C04
 #print axioms SuppModel.Props.C04.C04_pure_deterministic
-#print axioms SuppModel.Props.C04.C04_history
-#print axioms SuppModel.Props.C04.C04_two_histories
+#print axioms SuppModel.Props.C04.C04_checked_history
+#print axioms SuppModel.Props.C04.C04_checked_two_histories
+#print axioms SuppModel.Props.C04.C04_checked_le
+#print axioms SuppModel.Props.C04.C04_exact_history
+#print axioms SuppModel.Props.C04.C04_exact_total
+#print axioms SuppModel.Props.C04.C04_history_validated
+#print axioms SuppModel.Props.C04.C04_history_partial
+#print axioms SuppModel.Props.C04.C04_two_histories_partial
 #print axioms SuppModel.Props.C04.C04_memo_total
